@@ -14,6 +14,37 @@ CLAIMED = {
     note='Assumes: FieldValuesAsList (deepcopy + del) by contract, @OrderBy keys are strings, '
          'str.join / % formatting semantics, SQL ORDER BY/LIMIT semantics of the engine; VC generator trusted.',
     technique='contract-based deductive verification: Python-AST VC generation + z3/cvc5; bounded native contract execution as cross-check'),
+  'C15': dict(
+    category='other',
+    text='StripSpaces (maximal slice without leading/trailing white space) and HeritageAwareString.GetSlice '
+         '(span invariant heritage[start:stop] == text preserved under its weakest precondition) are proved '
+         'for all strings from VCs on the current source; the scanner and the whole-parser layout invariance '
+         'are bounded contracts, so the property as a whole is claimed below proof level.',
+    design_ref='DESIGN.md section 4, C15',
+    note='isspace is uninterpreted; HeritageAwareString content behaves as str; z3/cvc5 string theory; bounded parts are bounded.',
+    technique='contract-based deductive verification (Python-AST VCs, z3 + cvc5 strings) + bounded native contract execution'),
+  'C01': dict(
+    category='other',
+    text='Bounded schema contracts: for a catalogue of program shapes the rows and column names returned by the '
+         'real compiler + SQLite equal a per-schema Python comprehension on every small database (duplicates '
+         'included). Deductive unit contracts on the mechanisms are added as they are built (see evidence).',
+    design_ref='DESIGN.md section 4, C01',
+    note='SQLite bag semantics assumed; catalogue is finite; composition from units to all programs is not proved.',
+    technique='contracts on the real compile+execute path checked on all small databases (bounded stand-in); deductive unit contracts where listed'),
+  'C02': dict(
+    category='other',
+    text='Aggregate UDF classes under contract over all short step() histories; aggregation / negation / combine '
+         'schemas checked against comprehension specs on all small databases incl. empty groups.',
+    design_ref='DESIGN.md section 4, C02',
+    note='SQLite NULL/aggregate semantics assumed; bounded.',
+    technique='contracts on real functions executed natively over exhaustive small domains (bounded stand-in)'),
+  'C20': dict(
+    category='other',
+    text='Every UDF of sqlite3_logica.py used by the SQLite dialect is under contract against its one-line '
+         'definition, over all short histories and every arrival order (no ties).',
+    design_ref='DESIGN.md section 4, C20',
+    note='bounded; SQLite JSON1 assumed.',
+    technique='contracts on real functions executed natively over exhaustive small domains (bounded stand-in)'),
 }
 NA = {
   'C05': 'no contract within reach: needs a declarative typing judgement and a soundness argument linking inferred signatures to run-time values; the only available oracle would be a second type checker (different technique). Unification core is decided under C16.',
